@@ -3,6 +3,7 @@ package rules
 import (
 	"fmt"
 	"go/token"
+	"sort"
 	"strings"
 
 	"argverif/internal/core"
@@ -427,5 +428,78 @@ func runBuild(c *Ctx) {
 			}
 		}
 		c.R.Add("VSET", "NewValueSet|field-types", "NewValueSet", p.Pos(m.Pos()), okT && nlit >= 2, "each listed value becomes a struct field of exactly that value's type", fmt.Sprintf("ok=%v literals=%d", okT, nlit))
+	}
+	// Signature / SignatureValues: the rendered type list and the rendered value list are empty under the same test on
+	// the set — a built function's type is made from the first and its results from the second (siblings must agree)
+	{
+		emptyTests := func(m *ssa.Function) (map[string]bool, int) {
+			out := map[string]bool{}
+			n := 0
+			for _, r := range core.Returns(m) {
+				if len(r.Results) != 1 || !core.IsNilConst(r.Results[0]) {
+					continue
+				}
+				n++
+				lits := p.ILits(r.Block())
+				// a return reached through `a || b`: the tests on each incoming edge
+				for _, pb := range r.Block().Preds {
+					if len(r.Block().Preds) < 2 || len(pb.Instrs) == 0 {
+						break
+					}
+					if br, isIf := pb.Instrs[len(pb.Instrs)-1].(*ssa.If); isIf {
+						lits = append(lits, core.LitOf(br.Cond, pb.Succs[0] == r.Block()))
+						lits = append(lits, p.ILits(pb)...)
+					}
+				}
+				for _, l := range p.ExpandLitsKeep(lits) {
+					if l.Kind != "cmp" {
+						continue
+					}
+					if _, isPrm := core.Strip(l.X).(*ssa.Parameter); isPrm {
+						continue // the nil receiver
+					}
+					if _, isPrm := core.Strip(l.Y).(*ssa.Parameter); isPrm {
+						continue
+					}
+					out[c.litShape(l)] = true
+				}
+			}
+			return out, n
+		}
+		sig := p.Method(p.Arg, "ValueSet", "Signature")
+		sv := p.Method(p.Arg, "ValueSet", "SignatureValues")
+		if sig == nil || sv == nil {
+			c.R.Undecided("VSET", "Signature|siblings", "ValueSet.Signature", "-", "Signature / SignatureValues not found")
+		} else {
+			a, na := emptyTests(sig)
+			b, nb := emptyTests(sv)
+			var as, bs []string
+			for k := range a {
+				as = append(as, k)
+			}
+			for k := range b {
+				bs = append(bs, k)
+			}
+			sort.Strings(as)
+			sort.Strings(bs)
+			same := na > 0 && nb > 0 && strings.Join(as, " & ") == strings.Join(bs, " & ")
+			// FromSignature, which receives a list matching Signature(), loads nothing under that same test (it must
+			// not look at the first element of an empty list)
+			if fs := p.Method(p.Arg, "ValueSet", "FromSignature"); fs != nil {
+				ft, _ := emptyTests(fs)
+				covered := len(a) > 0
+				for k := range a {
+					if !ft[k] {
+						covered = false
+					}
+				}
+				c.R.Add("VSET", "FromSignature|loads-nothing-when-Signature-is-empty", "ValueSet.FromSignature", p.Pos(fs.Pos()), covered,
+					"loading a signature returns without touching the list under the test that makes Signature() empty",
+					fmt.Sprintf("Signature empty when {%s}; FromSignature returns early under that test: %v", strings.Join(as, " & "), covered))
+			}
+			c.R.Add("VSET", "Signature|empty-under-the-same-test-as-SignatureValues", "ValueSet.Signature", p.Pos(sig.Pos()), same,
+				"the rendered type list (Signature) and the rendered value list (SignatureValues) are empty under the same test on the set",
+				fmt.Sprintf("Signature empty when {%s}; SignatureValues empty when {%s}", strings.Join(as, " & "), strings.Join(bs, " & ")))
+		}
 	}
 }
